@@ -120,7 +120,8 @@ def _coverage(chk, ctx) -> None:
             got = cs[-1] if cs else None
             flat = [unversion(c) for c in p.conds(flat=True)]
             # every way to answer "can win" assumes the whole test (in one condition or in nested ones)
-            true_ok.see(bool(cs) and (cs[-1] == win or all(c in flat for c in conjuncts(win))))
+            true_ok.see(bool(cs) and (cs[-1] == win or all(
+                c in flat or (c[0] == 'or' and any(d in flat for d in c[1])) for c in conjuncts(win))))
             loops_ok = entered == [('self', 'board_indices'), ('self', 'hand_type_indices'), ('self', 'pots')]
         elif r == ('const', False):
             false_ok = True
